@@ -19,7 +19,7 @@ EXPLANATION = (
     "built from their own types. S7 (shared with C02): converter errors become MatchWithError. M9: every in-repo subclass of ParseMatcher resolves TYPE_REGISTRY to the single registry object defined on ParseMatcher, which register_type() writes and __init__ reads as default; M3 also requires that existing definitions are compared with the decorator's step text, not with a matcher-rewritten pattern.")
 NOT_DECIDED = ("what the third-party pattern languages match on concrete texts (typed fields, cardinality fields, regex "
                "groups), type-converter results")
-TECHNIQUE = "static analysis: exhaustive abstract evaluation of lookup/registration over token registries (decision tables, no-mutation effect rule), call-shape and provenance rules on the matcher glue, ownership rule for parsers"
+TECHNIQUE = "static analysis: exhaustive abstract evaluation of lookup/registration over token registries (decision tables, no-mutation effect rule), the matcher glue (module loading order, matcher-factory call sequences, match objects, cucumber check_match) evaluated with recording stand-ins, ownership rule for parsers"
 
 
 def run(chk, ix, tier):
